@@ -361,8 +361,20 @@ lowest(uint64_t mask)
 static int
 default_choice(uint64_t mask)
 {
-    if (ds.cfg.default_policy == DETSCHED_STICKY && ds.prev >= 0 && (mask & (1ull << ds.prev)))
+    const int prev_ok = ds.prev >= 0 && (mask & (1ull << ds.prev));
+    if (ds.cfg.default_policy == DETSCHED_STICKY && prev_ok)
         return ds.prev;
+    if (ds.cfg.default_policy == DETSCHED_FAIR && ds.prev >= 0) {
+        const int k = ds.th[ds.prev].kind;
+        const int voluntary = ds.th[ds.prev].state == T_PARKED && (k == DS_SLEEP || k == DS_YIELD);
+        if (prev_ok && !voluntary)
+            return ds.prev;
+        for (int i = 1; i <= DETSCHED_MAX_THREADS; ++i) {
+            int t = (ds.prev + i) % DETSCHED_MAX_THREADS;
+            if (mask & (1ull << t))
+                return t;
+        }
+    }
     return lowest(mask);
 }
 
@@ -485,15 +497,17 @@ decide(void)
                                      .label = th->label ? th->label : "",
                                      .enabled_mask = mask,
                                      .prev = ds.prev,
+                                     .prev_kind = (ds.prev >= 0 && ds.th[ds.prev].state == T_PARKED) ? ds.th[ds.prev].kind : -1,
                                      .requested = requested,
                                      .deviated = deviated,
                                      .vtime_ns = ds.now_ns };
         if (ds.cfg.trace) {
             if (ds.cfg.mode == DETSCHED_DFS) {
                 fprintf(ds.cfg.trace,
-                        "DS-DECISION step=%zu prev=%d chosen=%d enabled=",
+                        "DS-DECISION step=%zu prev=%d prevkind=%s chosen=%d enabled=",
                         ds.ndec,
                         ds.prev,
+                        ev.prev_kind < 0 ? "-" : detsched_kind_name(ev.prev_kind),
                         t);
                 int first = 1;
                 for (int i = 0; i < ds.nthreads; ++i)
